@@ -3,7 +3,19 @@ wire exactly as named, through every public way of connecting (`Client.connect`,
 
 The real `Client` is driven over a fake socket (module attributes `pyrtma.client.{socket,select,time}` rebound): every
 frame it writes is recorded, and the ACKNOWLEDGE it waits for is served from a prepared byte string.  The captured
-CONNECT_V2 / CONNECT frames are decoded and compared with the options that were passed *by name*."""
+CONNECT_V2 / CONNECT frames are decoded and compared with the options that were passed *by name*
+(`check_entry_points`, implementation side only).
+
+Model side (`entry_model_cases`, Model/ClientEntry.lean through `drv_cliententry`): for seven call shapes (positional,
+keywords in another order, mixed, defaults omitted; `client_context` by keyword, all positional, defaults omitted) x
+every combination of option values, the *actuals as written* go to the model, which binds them the way Python does
+along `Client(...)` / `connect(...)` / `client_context(...)` -> `_connect_helper(...)` -> payload fields; CORR compares the
+model's fields with the decoded frames, PROP evaluates `Spec/ClientEntry.lean honoured` on the decoded frames.
+    ECASE <id> <direct|context>
+    CALL <ctor|connect|ctx> P <val>.. K <name> <val> ..        val: b0 | b1 | i<int> | s<hex> | n
+    OPT <logger> <daemon> <allow> <mod_id> <name hex|->        the options as the caller names them
+    IMPL <v2.logger> <v2.daemon> <v2.allow> <v2.mod_id> <v2.name hex|-> <v1.logger> <v1.daemon> | IMPL none <why>
+    END"""
 from __future__ import annotations
 
 import ctypes
@@ -296,3 +308,105 @@ def check_reconnect_state() -> Dict[str, Any]:
     finally:
         CL.socket, CL.select, CL.time = saved
     return {"cases": n, "failures": failures}
+
+
+# ------------------------------------------------------------------------------------------------
+# the model side of the option plumbing (Model/ClientEntry.lean, driver drv_cliententry)
+# ------------------------------------------------------------------------------------------------
+def _enc(v: Any) -> str:
+    if isinstance(v, bool):
+        return "b1" if v else "b0"
+    if isinstance(v, int):
+        return f"i{v}"
+    if isinstance(v, str):
+        return "s" + v.encode("latin1").hex()
+    if v is None:
+        return "n"
+    raise ValueError(f"cannot encode {v!r}")
+
+
+def _call_line(which: str, pos: List[Any], kw: Dict[str, Any]) -> str:
+    return f"CALL {which} P " + " ".join(_enc(v) for v in pos) + " K " + " ".join(f"{k} {_enc(v)}" for k, v in kw.items())
+
+
+def _hexs(s: str) -> str:
+    return s.encode("latin1").hex() or "-"
+
+
+def entry_shapes(logger: bool, daemon: bool, allow: bool, name: str, mid: int, tc: bool):
+    """every way of calling the public entry points the check exercises: (label, kind, calls); `calls` is
+    {"ctor": (pos, kw), "connect": (pos, kw)} or {"ctx": (pos, kw)}; keyword order is the order written here"""
+    ctor_kw = ([], {"module_id": mid, "timecode": tc, "name": name})
+    ctor_pos = ([mid, 0, tc, name], {})
+    only = lambda **k: {n: v for n, v in k.items() if v}  # noqa: E731  options left at their default are omitted
+    yield "positional", "direct", {"ctor": ctor_kw, "connect": (["h:1", logger, daemon, allow], {})}
+    yield "keyword_shuffled", "direct", {"ctor": ctor_kw, "connect": ([], {"server_name": "h:1", "allow_multiple": allow,
+                                                                            "daemon_status": daemon, "logger_status": logger})}
+    yield "mixed", "direct", {"ctor": ctor_pos, "connect": (["h:1", logger], {"allow_multiple": allow, "daemon_status": daemon})}
+    yield "defaults_omitted", "direct", {"ctor": ([], only(module_id=mid, timecode=tc, name=name)),
+                                         "connect": (["h:1"], only(daemon_status=daemon, logger_status=logger, allow_multiple=allow))}
+    if not daemon:      # client_context has no daemon option
+        yield "context_keyword", "context", {"ctx": ([], {"module_id": mid, "server_name": "h:1", "timecode": tc,
+                                                          "logger_status": logger, "allow_multiple": allow, "name": name})}
+        yield "context_positional", "context", {"ctx": ([mid, "h:1", None, 0, tc, logger, allow, name], {})}
+        yield "context_defaults_omitted", "context", {"ctx": ([], dict(only(module_id=mid, timecode=tc, logger_status=logger,
+                                                                           allow_multiple=allow, name=name), server_name="h:1"))}
+
+
+def entry_model_cases() -> List[Dict[str, Any]]:
+    """run the real Client through every shape x every combination of option values on the fake socket; returns
+    [{"id", "label", "options", "protocol": [lines]}] for drv_cliententry"""
+    import pyrtma.client as CL
+    import pyrtma.core_defs as cd
+    out: List[Dict[str, Any]] = []
+    saved = (CL.socket, CL.select, CL.time)
+    n = 0
+    try:
+        for logger, daemon, allow, name, mid, tc in itertools.product((False, True), (False, True), (False, True),
+                                                                      ("", "nm", "a name with spaces"), (0, 12, 99), (False, True)):
+            for label, kind, calls in entry_shapes(logger, daemon, allow, name, mid, tc):
+                world = {"sent": b"", "inbuf": _ack_bytes(tc, mid or 117) * 4}
+                CL.socket, CL.select, CL.time = _shims(world)
+                cid = f"e{n}"
+                n += 1
+                lines = [f"ECASE {cid} {kind}"] + [_call_line(w, p, k) for w, (p, k) in calls.items()]
+                lines.append(f"OPT {int(logger)} {int(daemon)} {int(allow)} {mid} {_hexs(name)}")
+                err = None
+                try:
+                    if kind == "context":
+                        p, k = calls["ctx"]
+                        with CL.client_context(*p, **k):
+                            pass
+                    else:
+                        p, k = calls["ctor"]
+                        c = CL.Client(*p, **k)
+                        try:
+                            c.logger.enable_console = False
+                        except Exception:  # noqa: BLE001
+                            pass
+                        p, k = calls["connect"]
+                        c.connect(*p, **k)
+                        c._connected = False
+                except Exception as e:  # noqa: BLE001
+                    err = f"raised_{type(e).__name__}"
+                frames = _decode(world["sent"], tc)
+                v2 = [f for f in frames if f["type"] == cd.MT_CONNECT_V2]
+                v1 = [f for f in frames if f["type"] == cd.MT_CONNECT]
+                if err is None and (len(v2) != 1 or len(v1) != 1 or frames.index(v2[0]) > frames.index(v1[0])):
+                    err = "handshake_is_not_CONNECT_V2_then_CONNECT"
+                if err is not None:
+                    lines.append(f"IMPL none {err}")
+                else:
+                    a, b = v2[0], v1[0]
+                    lines.append(f"IMPL {int(a['logger'] == 1)} {int(a['daemon'] == 1)} {int(a['allow_multiple'] == 1)} "
+                                 f"{a['mod_id']} {_hexs(a['name'])} {int(b['logger'] == 1)} {int(b['daemon'] == 1)}")
+                    # a field that is neither 0 nor 1 is no boolean at all: show it to the Spec as a mismatch of both
+                    if any(x not in (0, 1) for x in (a["logger"], a["daemon"], a["allow_multiple"], b["logger"], b["daemon"])):
+                        lines[-1] = "IMPL none non_boolean_flag_in_payload"
+                lines.append("END")
+                out.append({"id": cid, "label": label, "kind": kind, "timecode": tc,
+                            "options": dict(logger=logger, daemon=daemon, allow_multiple=allow, name=name, id=mid),
+                            "calls": {w: [list(p), dict(k)] for w, (p, k) in calls.items()}, "protocol": lines})
+    finally:
+        CL.socket, CL.select, CL.time = saved
+    return out
